@@ -773,7 +773,26 @@ def capture_writers(ctx):
         extra = sorted(callers - okc)
         _rec(d, "callers|" + nm, not extra, "%s is called from %s: a start written without its end (or an end without its start) can leave start > end in a slot that get_paren slices" % (nm, extra), ctx.body(extra[0]).loc() if extra and ctx.body(extra[0]) else None)
         _rec(d, "used|" + nm, CG in callers, "%s is no longer called by CaptureGroupIterator::next" % nm, None)
+    # element-wise writes of the arrays themselves: the two inner setters, clear_captured_groups_beyond (end := the
+    # slot's own start, CLEAR-BEYOND) and match_at (group 0 of a state it has just emptied, MATCH-AT)
+    CS = "re_matcher::CaptureState::set_paren_start"
+    CE = "re_matcher::CaptureState::set_paren_end"
+    CL = "re_matcher::ReMatcher::clear_captured_groups_beyond"
+    direct = set()
+    for x in ctx.f.bodies:
+        se_ = None
+        for bb, t in x.calls():
+            dd, r, fn = callee(t)
+            if not r or not t["args"] or not re.search(r"(index_mut|get_mut|iter_mut|last_mut|first_mut|swap|fill|as_mut_slice|deref_mut|push|resize|clear|truncate|extend|insert|remove|pop)$", r):
+                continue
+            se_ = se_ or ctx.senv(x)
+            a0 = strip_ver(show(se_.operand(t["args"][0])))
+            if re.search(r"\.(startn|endn)\b", a0):
+                direct.add(ctx.creator_root(x.path) if "{closure" in x.path else x.path)
+    extra = sorted(direct - {CS, CE, CL, MA, S, E})
+    _rec(d, "direct-writers", not extra, "the group arrays are changed element-wise in %s" % extra, ctx.body(extra[0]).loc() if extra and ctx.body(extra[0]) else None)
     # group 0 only, outside the group iterator
+    optional = set()
     for path in (MA, EP):
         b = ctx.body(path)
         if b is None:
@@ -783,8 +802,13 @@ def capture_writers(ctx):
             dd, r, fn = callee(t)
             if r in (S, E):
                 g0 = strip_ver(show(se.operand(t["args"][1])))
+                optional.add("group-0|" + ("match_at" if path == MA else "EndProgram") + "|" + r.split("::")[-1])
                 _rec(d, "group-0|" + ("match_at" if path == MA else "EndProgram") + "|" + r.split("::")[-1], g0 == "0", "%s writes the span of group %s; outside CaptureGroupIterator::next only group 0 (the whole match) is written" % (path, g0), b.loc(bb))
-    return _emit(d)
+    out = _emit(d)
+    for o in out:
+        if o.key in optional:
+            o.optional = True  # a site that writes the state directly instead is not a call to judge
+    return out
 
 
 # ------------------------------------------------------------------ repetition iterators
@@ -1057,8 +1081,17 @@ def repeat_iter(ctx):
             _rec(d, "zero-iteration-offered", len(once) == 1 and pushes[0] == once[0], "with min == 0 the zero-iteration alternative once(position) must be the first (least preferred) entry of the iterator stack; pushes %s" % [c[1][1:] for c in cs if c[0] == "Vec::push"][:3], loc)
         if greedy and "!eq(0, a1.min)" in gs:
             _rec(d, "no-zero-iteration", not z and not once, "with min > 0 there is no zero-iteration alternative", loc)
+    def unneeded_empty(gs):
+        """the path saw the iteration end where it began (eq(next(matches_iter(.., P)) as Some.0, P)) and min reached"""
+        stuck = False
+        for g in gs:
+            m_ = re.match(r"^eq\(next\((?:<Operation as OperationControl>::)?matches_iter\(a1\.operation, (?:a2|a1\.matcher), (uninit\(\d+\))\)\) as Some\.0, (uninit\(\d+\))\)$", g)
+            if m_ and m_.group(1) == m_.group(2):
+                stuck = True
+        return stuck and any(re.match(r"^!lt\(.*, a1\.min\)$", g) for g in gs)
     # the priming loop goes on until the bound is reached or an iteration fails: nothing else ends it (an iteration
-    # that matched nothing still counts towards min)
+    # that matched nothing still counts towards min) - except that an iteration that consumed nothing needs no
+    # successor once min is reached
     for h, blocks in b.natural_loops().items():
         hg = [_sh(strip_ver(g)) for g in guard_strings(b, h, ctx.senv(b))]
         if "a1.greedy" not in hg:
@@ -1068,7 +1101,26 @@ def repeat_iter(ctx):
                 continue
             gs = [_sh(strip_ver(g)) for g in summarize(p)[0]]
             stop = [g for g in gs if g.endswith("=None") and "next(" in g]
-            _rec(d, "priming-stops-only-at-bound-or-failure", bool(stop), "the priming loop of the greedy repeat is left although the bound is not reached and the iteration matched (guards %s): iterations that are still owed to min are not made" % gs[:4], b.loc(p.blocks[-1]))
+            _rec(d, "priming-stops-only-at-bound-or-failure", bool(stop) or unneeded_empty(gs), "the priming loop of the greedy repeat is left although the bound is not reached and the iteration matched (guards %s): iterations that are still owed to min are not made" % gs[:4], b.loc(p.blocks[-1]))
+    # ... and an iteration that consumed nothing is not followed by another one once min is reached (it could only do
+    # the same again: every level of the stack would offer the alternatives of the term at the same position once
+    # more).  A turn that goes round again after a matched iteration must have seen progress or be below min.
+    UNNEEDED = "greedy|no-iteration-after-unneeded-empty-one"
+
+    def goes_on_blindly(gs):
+        progress = any(re.match(r"^!eq\(.*next\(.*matches_iter\(.*\)\).*\)$", g) for g in gs)
+        owed = any(re.match(r"^lt\(.*, a1\.min\)$", g) for g in gs)
+        return not (progress or owed)
+    for h, blocks in b.natural_loops().items():
+        hg = [_sh(strip_ver(g)) for g in guard_strings(b, h, ctx.senv(b))]
+        if "a1.greedy" not in hg:
+            continue
+        for p in ctx.walk(b, start_bb=h, max_visits=1).paths:
+            if p.end != "loop:%d" % h:
+                continue
+            gs = [_sh(strip_ver(g)) for g in summarize(p)[0]]
+            if any(g.endswith("=Some") and "matches_iter(" in g for g in gs):
+                _rec(d, UNNEEDED, not goes_on_blindly(gs), "the priming loop of the greedy repeat starts a further iteration after one that may have consumed nothing although min is reached (no test of the position reached against the position started from): over a term that tries the empty match first the stack fills with zero-width iterations whose alternatives are all explored - '((|a)*|b)+b[b]' on 'aaaab' does not answer", b.loc(p.blocks[-1]))
     G = "<op_repeat::GreedyRepeatIterator as std::iter::Iterator>::next"
     gb = ctx.body(G)
     if gb is None:
@@ -1081,9 +1133,11 @@ def repeat_iter(ctx):
                 continue
             for p, gs in rp:
                 if p.end == "loop:%d" % h:
+                    if any(g.endswith("=Some") and "matches_iter(" in g for g in gs):
+                        _rec(d, UNNEEDED, not goes_on_blindly(gs), "after backtracking the greedy repeat starts a further iteration after one that may have consumed nothing although min is reached: '((|a)*|b)+b[b]' on 'aaaab' does not answer", gb.loc(p.blocks[-1]))
                     continue
                 stop = gs[0].startswith("!") or (len(gs) > 1 and gs[1].endswith("=None") and "matches_iter(" in gs[1])
-                _rec(d, "greedy|extension-stops-only-at-bound-or-failure", stop, "after backtracking the greedy repeat stops adding iterations although the stack is below its bound and the iteration matched (guards %s)" % gs[:3], gb.loc(p.blocks[-1]))
+                _rec(d, "greedy|extension-stops-only-at-bound-or-failure", stop or unneeded_empty(gs), "after backtracking the greedy repeat stops adding iterations although the stack is below its bound and the iteration matched (guards %s)" % gs[:3], gb.loc(p.blocks[-1]))
         for p in checked(d, "greedy-repeat-next", gb, ctx.walk(gb, max_visits=1).paths, only=lambda p: p.end == "return"):
             gs, r = summarize(p)
             gs = [_greedy_stack_canon(strip_ver(g)) for g in gs]
@@ -1107,7 +1161,7 @@ def repeat_iter(ctx):
                 _rec(d, "greedy|pop-after-exhaustion", any(x.endswith("=None") and "next(" in x for x in g), "an iterator is popped from the greedy stack before it is exhausted", gb.loc(bb))
     out = _emit(d)
     for i_ in out:
-        if i_.key == "greedy-bound-proportional-to-input" or i_.key.startswith("progress-guard|"):
+        if i_.key in ("greedy-bound-proportional-to-input", "greedy|no-iteration-after-unneeded-empty-one") or i_.key.startswith("progress-guard|"):
             i_.props = ["C06"]
         elif i_.key in ("priming-stops-only-at-bound-or-failure", "greedy-bound-at-least-min", "greedy|extension-stops-only-at-bound-or-failure"):
             # a counted back-reference to an unset or empty group (`\1{2}`) matches by min iterations that consume
